@@ -4,8 +4,11 @@ C01 / C14 — WHOLE scalar-planned transforms, on the code's own operation seque
 For every length `2 ≤ n ≤ 64` whose scalar plan has no Rader / Bluestein node (56 lengths), both directions and all three
 explicit entry points (in-place, out-of-place, immutable; scratch of exactly the advertised length), the REAL transform
 returned by `FftPlannerScalar::<T>::plan_fft` — what `FftPlanner` falls back to for a third element type — was run on
-the symbolic element type; the 336 recorded programs (362 682 instructions; regenerated on every run) all pass the
-verified checker.  Hence each of them computes exactly the unnormalised DFT of its length, over every commutative ring
+the symbolic element type; for `n ≤ 32` (forward) additionally on a buffer of TWO chunks, each chunk checked on its own.
+Everything the call can read besides the chunk under consideration — the scratch, the initial contents of the output
+buffer, the other chunk — is filled with further symbolic inputs ("garbage", numbered from `2n`): a program whose
+outputs mention any of them is rejected by the checker.  The 522 recorded programs (455 670 instructions; regenerated
+on every run) all pass.  Hence each of them computes exactly the unnormalised DFT of its length, over every commutative ring
 with a lawful cosine system, for EVERY input: a statement about the code (MixedRadix, MixedRadixSmall,
 GoodThomasAlgorithmSmall, RadixN, Radix4, the butterflies, the chunk helpers and the scratch plumbing of three entry
 points), not about a model of it.  The six closed evaluations `planned_chunk{0..5}_check` (Props/C01PlannedChunk*.lean, split only so that they build in
@@ -41,5 +44,41 @@ theorem small_planned_are_dft (P : RawProg) (hP : P ∈ Gen.allPlanned) (S : Cos
       ∑ j ∈ range P.n, (x (2 * j + 1) * gridCos S P.n (j * k) -
         (if P.inverse then -1 else 1) * (x (2 * j) * gridSin S P.n (j * k))) :=
   checked_program_is_dft P (List.all_eq_true.mp small_planned_check P hP) S x k hk
+
+/-- **C08 / C07 on the code**: the outputs do not depend on anything but the chunk's own `2n` input scalars — not on
+the initial contents of the scratch, not on the initial contents of the output buffer, not on the other chunk of a
+two-chunk call (all of these are inputs `≥ 2n` of the recorded program) -/
+theorem planned_outputs_ignore_garbage (P : RawProg) (hP : P ∈ Gen.allPlanned) (S : CosSys R P.grid)
+    (x x' : Nat → R) (hx : ∀ i, i < 2 * P.n → x i = x' i) (o : Nat) (ho : o < 2 * P.n) :
+    regOf (P.run S.cs x) (P.outs.getD o 0) = regOf (P.run S.cs x') (P.outs.getD o 0) := by
+  have hc := List.all_eq_true.mp small_planned_check P hP
+  have key : ∀ k, k < P.n → ∀ (b : Bool),
+      regOf (P.run S.cs x) (P.outs.getD (2 * k + (if b then 1 else 0)) 0) =
+      regOf (P.run S.cs x') (P.outs.getD (2 * k + (if b then 1 else 0)) 0) := by
+    intro k hk b
+    obtain ⟨h1, h2⟩ := checked_program_is_dft P hc S x k hk
+    obtain ⟨h1', h2'⟩ := checked_program_is_dft P hc S x' k hk
+    have e : ∀ j, j < P.n → x (2 * j) = x' (2 * j) ∧ x (2 * j + 1) = x' (2 * j + 1) :=
+      fun j hj => ⟨hx _ (by omega), hx _ (by omega)⟩
+    cases b
+    · simp only [Bool.false_eq_true, if_false, Nat.add_zero]
+      rw [h1, h1']
+      apply Finset.sum_congr rfl
+      intro j hj
+      have hj' := Finset.mem_range.mp hj
+      rw [(e j hj').1, (e j hj').2]
+    · simp only [if_true]
+      rw [h2, h2']
+      apply Finset.sum_congr rfl
+      intro j hj
+      have hj' := Finset.mem_range.mp hj
+      rw [(e j hj').1, (e j hj').2]
+  have ho2 : o = 2 * (o / 2) + (if o % 2 = 1 then 1 else 0) := by split <;> omega
+  have := key (o / 2) (by omega) (decide (o % 2 = 1))
+  simp only [decide_eq_true_eq] at this
+  rw [ho2]; exact this
+
+/-- there are two-chunk programs among them (non-vacuity of the chunk clause) -/
+theorem planned_two_chunk_pos : 0 < Gen.plannedTwoChunk := by decide
 
 end RFV
